@@ -46,6 +46,8 @@ class Recorder:
         self.snaps = []       # (k, env)
         self.handled = []     # exception class names
         self.extra = False
+        self.carrier = None   # Python carrier of the sequences that tal:repeat iterates (list by default)
+        self.rep_ks = set()
 
     def load(self, log):
         self.script = {}
@@ -69,7 +71,11 @@ class Recorder:
         if r["t"] == "exc":
             self.raised = C.make_exc(r["c"])
             raise self.raised
-        return self.vf.make(r)
+        v = self.vf.make(r)
+        if self.carrier and k in self.rep_ks and r["t"] == "seq" and not r.get("once"):
+            v = C.CARRIERS[self.carrier](v)
+            self.vf.back[id(v)] = (v, r)
+        return v
 
     def snap(self, k, econtext):
         env = {}
@@ -166,6 +172,8 @@ class Replayer:
         self.rec = Recorder(self.vf, names)
         self.sites = site_of_calls(p)
         self.options = dict(options or {})
+        self.rec.carrier = self.options.pop("_carrier", None)
+        self.rec.rep_ks = {k for k, site in self.sites.items() if site[1] == "rep"}
         self.variant = variant or self.options.pop("_translate_variant", None)
         if self.variant:
             self.rec.variant = self.variant
